@@ -148,32 +148,12 @@ class Engine:
         vals = m.globals.get(name)
         if not vals:
             raise AnalysisError(f'table {m.short}.{name} not found')
+        from . import tables
         out = None
-        for v in vals:
-            if isinstance(v, (ast.Tuple, ast.List)):
-                ent = []
-                for e in v.elts:
-                    if isinstance(e, ast.Tuple) and len(e.elts) == 2 and \
-                            isinstance(e.elts[0], ast.Constant):
-                        e = e.elts[1]
-                    r = self.model.resolve_name_expr(m, e)
-                    if not r or r[0] != 'func':
-                        ent = None
-                        break
-                    ent.append((r[1].name, r[1]))
-                if ent:
-                    out = ent
-            elif isinstance(v, ast.Dict):
-                ent = []
-                for k, e in zip(v.keys, v.values):
-                    r = self.model.resolve_name_expr(m, e)
-                    if not isinstance(k, ast.Constant) or not r or \
-                            r[0] != 'func':
-                        ent = None
-                        break
-                    ent.append((k.value, r[1]))
-                if ent:
-                    out = ent
+        ents = tables.func_entries(self.model, m, name)
+        if ents and all(r and r[0] == 'func' for _, _, r in ents):
+            out = [(k if k is not None else r[1].name, r[1])
+                   for k, _, r in ents]
         if out is None:
             raise AnalysisError(
                 f'table {m.short}.{name}: entries do not resolve to '
